@@ -67,6 +67,9 @@ var c02Roots = []any{
 	[]any{[]any{1.0}, map[string]any{"a": map[string]any{"b": 2.0}}, "x", nil, 3.0},
 	map[string]any{"a": map[string]any{"b": []any{8.0, 9.0}}, "z": 1.0},
 	[]any{2.0},
+	map[string]any{"z": 0.0, "nul": nil, "a": map[string]any{"b": nil}},
+	map[string]any{"z": nil, "nul": 0.0, "a": map[string]any{"b": 0.0}},
+	[]any{map[string]any{"z": nil}, map[string]any{"z": 0.0}, map[string]any{"nul": 0.0}, nil, 0.0},
 }
 
 func isArr(v any) bool { _, ok := v.([]any); return ok }
@@ -162,6 +165,9 @@ func c02Random(rng *rand.Rand) (*c02Config, string, bool) {
 	}
 	cfg.allArrays = allArr
 	nrules := 1 + rng.IntN(8)
+	if rng.IntN(6) == 0 {
+		nrules = 13 + rng.IntN(28) // long programs: rules of one kind keep their source order however many there are
+	}
 	active := map[string]bool{}
 	npat := 0
 	for i := 0; i < nrules; i++ {
@@ -196,7 +202,7 @@ func c02Random(rng *rand.Rand) (*c02Config, string, bool) {
 		}
 		if k == "pattern" {
 			npat++
-			switch rng.IntN(8) {
+			switch rng.IntN(9) {
 			case 0:
 				r.Pattern = N("0")
 			case 1:
@@ -211,6 +217,10 @@ func c02Random(rng *rand.Rand) (*c02Config, string, bool) {
 				}
 			case 5:
 				r.Pattern = Bin("&&", &IsExpr{X: V("$"), T: "number"}, Bin(">", V("$"), N(strconv.Itoa(rng.IntN(4)))))
+			case 7:
+				// a member compared with a small number where the member may be null or missing (null ranks below every number)
+				fld := []Expr{Mem(V("$"), "z"), Mem(V("$"), "nul"), Mem(V("$"), "zz"), Mem(Mem(V("$"), "a"), "b"), Idx(V("$"), N("0"))}[rng.IntN(5)]
+				r.Pattern = Bin([]string{"==", "!=", "<", ">=", "<=", ">"}[rng.IntN(6)], fld, N([]string{"0", "0", "1", "2"}[rng.IntN(4)]))
 			case 6:
 				// next executed while the pattern is evaluated
 				if rng.IntN(2) == 0 {
